@@ -123,6 +123,26 @@ def run(prog, E=None, rule="R-ALPHABET", floor=3):
                             out[s_].add(cv)
         return out
     PT = {f.key: param_tests(f) for f in funcs}
+    # a validator may delegate: tests made by a callee on an argument rooted at the parameter count for the parameter
+    changed, rounds = True, 0
+    while changed and rounds < 5:
+        changed = False
+        rounds += 1
+        for f in funcs:
+            for b, i, c in f.calls():
+                g = prog.resolve(f, c[1]) if c[1] else None
+                if g is None or g.key not in PT:
+                    continue
+                for k, a in enumerate(c[3]):
+                    if k >= len(g.params):
+                        continue
+                    root = apath(strip(a))
+                    if not (isinstance(root[0], str) and root[0].startswith("p")):
+                        continue
+                    add = PT[g.key].get(g.params[k][0], set()) - PT[f.key].get(root[1], set())
+                    if add:
+                        PT[f.key][root[1]] |= add
+                        changed = True
     # only values that reach the function from the public API (taint from the API boundary: char / char* / QSbasis* arguments)
     apis = {f.key: (f, pidx) for f, pidx in api_functions(prog, "mpq_")}
     T, names = input_names(prog, apis, E or Effects(prog))
@@ -147,24 +167,35 @@ def run(prog, E=None, rule="R-ALPHABET", floor=3):
             res.obligations += 1
             res.nontrivial += 1
             need = len(A) - 1
-            # (a) tests in this function on dominating blocks
+            # (a) tests in this function: a short-circuit chain (v != 'L' && v != 'E' && ...) is split over several condition blocks of
+            #     which only the first dominates the store; the chain is the set of condition blocks on the same source that can reach the
+            #     store, and it counts when its head dominates the store
             seen = set()
-            for d in dom.get(bid, ()):
-                if d == bid:
+            reach = _reaching(succ, bid)
+            head_dominates = False
+            for d in f.live:
+                if d == bid or d not in reach:
                     continue
                 c = f.blocks[d].get("c")
                 if c is None:
                     continue
+                got = set()
                 if f.blocks[d].get("t") == "SwitchStmt":
                     if _source(f, c) == src:
-                        seen |= {f.blocks[s]["l"][1] for s in prog.live_succs(f, f.blocks[d]) if s is not None and f.blocks[s].get("l", [""])[0] == "case"}
-                    continue
-                for nd in walk(c):
-                    if isinstance(nd, list) and nd and nd[0] == "b" and nd[1] in ("==", "!="):
-                        for a, b_ in ((nd[2], nd[3]), (nd[3], nd[2])):
-                            cv = const_of(b_)
-                            if cv is not None and _source(f, a) == src:
-                                seen.add(cv)
+                        got = {f.blocks[s]["l"][1] for s in prog.live_succs(f, f.blocks[d]) if s is not None and f.blocks[s].get("l", [""])[0] == "case"}
+                else:
+                    for nd in walk(c):
+                        if isinstance(nd, list) and nd and nd[0] == "b" and nd[1] in ("==", "!="):
+                            for a, b_ in ((nd[2], nd[3]), (nd[3], nd[2])):
+                                cv = const_of(b_)
+                                if cv is not None and _source(f, a) == src:
+                                    got.add(cv)
+                if got:
+                    seen |= got
+                    if d in dom.get(bid, ()):
+                        head_dominates = True
+            if not head_dominates:
+                seen = set()
             how = None
             if len(seen & A) >= need:
                 how = "tested here against %d of %d letters" % (len(seen & A), len(A))
@@ -196,6 +227,22 @@ def run(prog, E=None, rule="R-ALPHABET", floor=3):
     res.counts["stores_of_external_letters"] = nst
     res.floor("stores of caller-supplied letters into sense / status arrays", nst, floor)
     return res
+
+
+def _reaching(succ, target):
+    """blocks from which target is reachable"""
+    preds = collections.defaultdict(set)
+    for a, ss in succ.items():
+        for x in ss:
+            preds[x].add(a)
+    seen, wl = set(), [target]
+    while wl:
+        x = wl.pop()
+        for p_ in preds[x]:
+            if p_ not in seen:
+                seen.add(p_)
+                wl.append(p_)
+    return seen
 
 
 def _chr(x):
